@@ -333,6 +333,21 @@ pub fn gen_cases(profile: &str, seed: u64, b: &Budget) -> Vec<Case> {
                 }
                 cfg.max_parameter = [14, 0, 1, 2, 14, 7, 14, 3][(idx / 3) % 8];
                 cfg.partitions = [Some(16), None, Some(1), Some(64), None][(idx / 5) % 5];
+                if profile == "c09" && idx % 25 == 12 {
+                    // coded size within a few hundred bits of verbatim on large blocks with many partitions
+                    family = "nearverb2".to_string();
+                    bps = [16usize, 12, 16, 8, 20][(idx / 25) % 5];
+                    bs = [4096usize, 1024, 2048, 4096, 1024][(idx / 50) % 5];
+                    cfg = Cfg { block_size: bs, ..Cfg::default() };
+                    match (idx / 25) % 4 {
+                        1 => cfg.use_fixed = false,
+                        2 => cfg.use_lpc = false,
+                        3 => cfg.partitions = None,
+                        _ => {}
+                    }
+                    mode = Mode::St;
+                    wide = Some(1);
+                }
                 if profile == "c09" && idx % 25 == 7 {
                     // coded sizes of 2^32 + delta bits: 32-bit size accumulators wrap
                     family = "wrap32".to_string();
@@ -345,7 +360,15 @@ pub fn gen_cases(profile: &str, seed: u64, b: &Budget) -> Vec<Case> {
                     bs = [64, 128, 192, 256, 512, 576, 1024, 320][(idx / 2) % 8];
                     cfg.block_size = bs;
                     mode = Mode::St;
-                    if idx % 100 == 53 {
+                    if idx % 100 == 77 {
+                        // very long blocks with few factors of two (one or two huge partitions): per-partition cost
+                        // sums reach 2^17 and more although the content is quiet
+                        family = "quietnoise".to_string();
+                        bs = [32767usize, 24001, 22052, 32766][(idx / 100) % 4];
+                        cfg = Cfg { block_size: bs, use_lpc: idx % 200 == 77, max_parameter: 14, ..Cfg::default() };
+                        bps = [16usize, 24, 12][(idx / 100) % 3];
+                        wide = Some(1);
+                    } else if idx % 100 == 53 {
                         // long blocks: more than 64 partitions of 64 samples are possible (orders 7 and 8), and
                         // the loudness alternates every 64 samples so that the finest orders are the optimum
                         family = format!("nonstat{}", 1 + (idx / 100) % 3);
@@ -449,7 +472,7 @@ pub fn gen_cases(profile: &str, seed: u64, b: &Budget) -> Vec<Case> {
             cfg.block_size = bs;
             cfg.use_lpc = false;
         }
-        let big = b.bigshare > 0 && idx % b.bigshare == b.bigshare / 2 && !long && !["dcedge", "ricebump", "wrap32", "fullsine"].contains(&family.as_str()) && profile != "c13";
+        let big = b.bigshare > 0 && idx % b.bigshare == b.bigshare / 2 && !long && !["dcedge", "ricebump", "wrap32", "fullsine", "nearverb2"].contains(&family.as_str()) && profile != "c13";
         if big {
             bs = [4096usize, 2304, 8192, 16384, 4608, 32767, 1152, 12000][(idx / b.bigshare) % 8];
             cfg.block_size = bs;
@@ -470,7 +493,7 @@ pub fn gen_cases(profile: &str, seed: u64, b: &Budget) -> Vec<Case> {
         }
         if let Some(c) = wide {
             ch = c;
-            n = if profile == "c13" { bs } else { bs * (1 + idx % 2) + [0usize, 1, 100][idx % 3] };
+            n = if profile == "c13" || family == "nearverb2" { bs } else { bs * (1 + idx % 2) + [0usize, 1, 100][idx % 3] };
         }
         if long {
             ch = 1 + idx % 2;
@@ -595,6 +618,23 @@ fn failed_write_prelude(i: usize) {
     }));
 }
 
+fn shorter_block_prelude(c: &Case, i: usize) {
+    let _ = std::panic::catch_unwind(std::panic::AssertUnwindSafe(|| {
+        let bs = (64 + i % 37).min(c.g.bs.max(32));
+        let n = bs.min(c.g.n);
+        if n == 0 {
+            return;
+        }
+        let g = Geometry { ch: c.g.ch, bps: c.g.bps, rate: c.g.rate, bs, n };
+        let chans: Vec<Vec<i32>> = c.chans.iter().map(|x| x[..n].to_vec()).collect();
+        let mut cfg = c.cfg.clone();
+        cfg.block_size = bs;
+        cfg.field_bs = 0;
+        let _ = enc::encode(&cfg, VecSource::new(&g, gen::interleave(&chans)), &Mode::St);
+        let _ = enc::encode(&cfg, VecSource::new(&g, gen::interleave(&chans)), &Mode::Fl);
+    }));
+}
+
 pub fn drive(cases: &[Case], props: &[&str], with_counts: bool, out: &Path, prefix: &str, shards: usize) -> Summary {
     let mut sh = Shards::new(out, prefix);
     let mut classes = BTreeSet::new();
@@ -606,6 +646,11 @@ pub fn drive(cases: &[Case], props: &[&str], with_counts: bool, out: &Path, pref
         // case is also preceded by writes that FAIL part-way (thread-local scratch buffers on error paths)
         if i % 5 == 2 {
             failed_write_prelude(i);
+        }
+        // ... and every fifth case by an encode of a SHORTER block with the same configuration on this thread
+        // (per-thread caches keyed by configuration values must not depend on the sizes seen before)
+        if i % 5 == 4 {
+            shorter_block_prelude(c, i);
         }
         let r = run_case(c, props, with_counts);
         classes.insert(c.class());
